@@ -135,6 +135,8 @@ def run(cx):
     cx.guard(_r07f, cx, repo)
     cx.guard(_r07g, cx, repo)
     cx.guard(_r07h, cx, repo)
+    cx.rule("R07i", "a parent-build map that is an entry of the per-branch cache is never changed in place")
+    cx.guard(_r07i, cx, repo)
 
 
 CONTROL = """
@@ -324,3 +326,155 @@ def _r07h(cx, repo):
                 cx.ob("R07h", x, not fs, "exit of the search does not depend on the shipped builds" if not fs else
                       f"`{norm(x)}` under `{norm(fs[0])[:60]}` ends the search at an already shipped build instead of skipping it", stmt=f"search exit {norm(x)[:30]}")
     cx.counts["R07h:search exits examined"] = n
+
+
+# ------------------------------------------------------------------------------------------------ R07i
+R07I_CONTROL = """
+def walk(cache, stack):
+    while stack:
+        cur = stack.pop()
+        acc = None
+        for p in cur.parents:
+            m = cache[p.iid]
+            if acc is None:
+                acc = m
+            else:
+                acc.update(m)
+        cache[cur.iid] = acc
+"""
+_R07I_MUT = {"update", "pop", "popitem", "clear", "setdefault", "__setitem__", "__delitem__", "append", "extend", "add", "discard", "remove"}
+
+
+def _frozen_mutations(func, cache):
+    """Mutation sites of objects that may be values of the dict `cache` (read from it, or already stored into it), by a forward
+    may-alias pass over the statements of `func` (branches joined by union, loops iterated to a fixpoint, plain rebinding kills).
+    Returns (mutation nodes, number of cache reads seen)."""
+    bad, reads = [], [0]
+
+    def is_read(e, fr):
+        if isinstance(e, ast.Subscript) and isinstance(e.value, ast.Name) and e.value.id == cache:
+            return True
+        if isinstance(e, ast.Call) and isinstance(e.func, ast.Attribute) and isinstance(e.func.value, ast.Name) and e.func.value.id == cache and e.func.attr in ("get", "pop", "setdefault"):
+            return True
+        if isinstance(e, ast.Name) and e.id in fr:
+            return True
+        if isinstance(e, ast.IfExp):
+            return is_read(e.body, fr) or is_read(e.orelse, fr)
+        if isinstance(e, ast.BoolOp):
+            return any(is_read(v, fr) for v in e.values)
+        if isinstance(e, ast.NamedExpr):
+            return is_read(e.value, fr)
+        return False
+
+    def scan_expr(e, fr, final):
+        for n in ast.walk(e):
+            if isinstance(n, ast.Subscript) and isinstance(n.value, ast.Name) and n.value.id == cache and isinstance(n.ctx, ast.Load) and final:
+                reads[0] += 1
+            if isinstance(n, ast.Call) and isinstance(n.func, ast.Attribute) and n.func.attr in _R07I_MUT:
+                tgt = n.func.value
+                if (isinstance(tgt, ast.Name) and tgt.id in fr) or (is_read(tgt, fr) and not isinstance(tgt, ast.Name)):
+                    if final and not any(n is b for b in bad):
+                        bad.append(n)
+
+    def run(stmts, fr, final):
+        for st in stmts:
+            if isinstance(st, (ast.FunctionDef, ast.AsyncFunctionDef, ast.ClassDef)):
+                continue
+            if isinstance(st, ast.If):
+                scan_expr(st.test, fr, final)
+                a = run(st.body, set(fr), final)
+                b = run(st.orelse, set(fr), final)
+                fr = a | b
+            elif isinstance(st, (ast.For, ast.AsyncFor, ast.While)):
+                hdr = st.iter if not isinstance(st, ast.While) else st.test
+                cur = set(fr)
+                for _ in range(4):
+                    inner = set(cur)
+                    if not isinstance(st, ast.While):
+                        it = st.iter
+                        if isinstance(it, ast.Call) and isinstance(it.func, ast.Attribute) and it.func.attr in ("values", "items") and isinstance(it.func.value, ast.Name) and it.func.value.id == cache:
+                            tv = st.target.elts[-1] if isinstance(st.target, ast.Tuple) else st.target
+                            if isinstance(tv, ast.Name):
+                                inner.add(tv.id)
+                        else:
+                            for x in ast.walk(st.target):
+                                if isinstance(x, ast.Name):
+                                    inner.discard(x.id)
+                    out = run(st.body, inner, False)
+                    nxt = cur | out
+                    if nxt == cur:
+                        break
+                    cur = nxt
+                scan_expr(hdr, cur, final)
+                inner = set(cur)
+                if not isinstance(st, ast.While) and isinstance(st.iter, ast.Call) and isinstance(st.iter.func, ast.Attribute) and st.iter.func.attr in ("values", "items") \
+                        and isinstance(st.iter.func.value, ast.Name) and st.iter.func.value.id == cache:
+                    tv = st.target.elts[-1] if isinstance(st.target, ast.Tuple) else st.target
+                    if isinstance(tv, ast.Name):
+                        inner.add(tv.id)
+                out = run(st.body, inner, final)
+                fr = run(st.orelse, cur | out, final)
+            elif isinstance(st, (ast.With, ast.AsyncWith)):
+                fr = run(st.body, fr, final)
+            elif isinstance(st, ast.Try):
+                a = run(st.body, set(fr), final)
+                outs = [a] + [run(h.body, set(fr) | a, final) for h in st.handlers]
+                j = set().union(*outs)
+                j = run(st.orelse, j, final)
+                fr = run(st.finalbody, j, final)
+            else:
+                scan_expr(st, fr, final)
+                if isinstance(st, ast.Assign):
+                    frozen_val = is_read(st.value, fr)
+                    for t in st.targets:
+                        if isinstance(t, ast.Name):
+                            (fr.add if frozen_val else fr.discard)(t.id)
+                        elif isinstance(t, ast.Subscript):
+                            if isinstance(t.value, ast.Name) and t.value.id == cache and isinstance(st.value, ast.Name):
+                                fr.add(st.value.id)        # stored: from now on the object is shared through the cache
+                            elif isinstance(t.value, ast.Name) and t.value.id in fr and final and not any(st is b for b in bad):
+                                bad.append(st)
+                        elif isinstance(t, (ast.Tuple, ast.List)):
+                            for x in ast.walk(t):
+                                if isinstance(x, ast.Name):
+                                    fr.discard(x.id)
+                elif isinstance(st, ast.AugAssign):
+                    if isinstance(st.target, ast.Name) and st.target.id in fr and final and not any(st is b for b in bad):
+                        bad.append(st)
+                    if isinstance(st.target, ast.Subscript) and isinstance(st.target.value, ast.Name) and st.target.value.id in fr and final and not any(st is b for b in bad):
+                        bad.append(st)
+                elif isinstance(st, ast.Delete):
+                    for t in st.targets:
+                        if isinstance(t, ast.Subscript) and isinstance(t.value, ast.Name) and t.value.id in fr and final and not any(st is b for b in bad):
+                            bad.append(st)
+        return fr
+    run(func.body, set(), True)
+    return bad, reads[0]
+
+
+def _r07i(cx, repo):
+    """`rcommits_bparents` maps every visited non-build commit to the map of its nearest parent builds; the map object of a
+    commit is shared with every child that has the same parent builds and is what later builds made from that commit are compared
+    against (`ComponentBump.from_rbuilds` derives from it).  Once a map is stored in (or read from) the cache it is frozen:
+    changing it in place changes the parent builds of commits already processed, and a component build already shipped by an
+    earlier parent build is reported again at a later one (s155).  Decided by a forward may-alias pass over the function."""
+    ctl = ast.parse(R07I_CONTROL).body[0]
+    cb, cr = _frozen_mutations(ctl, "cache")
+    cx.need(len(cb) == 1 and norm(cb[0]).startswith("acc.update") and cr == 1, "R07i", "positive-control", f"control snippet not classified as expected ({[norm(b) for b in cb]}, reads={cr})")
+    f = cx.func(REL, "RGraph._find_new_rcommits_in_build", "R07i")
+    name = "rcommits_bparents"
+    cx.need(name in params(f) or assignments(f, name), "R07i", f, f"the cache of parent-build maps `{name}` is not a parameter / local of the function")
+    bad, n_reads = _frozen_mutations(f, name)
+    # reads inside nested helper generators count as reads too (they only iterate the cached maps)
+    n_reads += sum(1 for g in ast.walk(f) if isinstance(g, (ast.FunctionDef, ast.Lambda)) and g is not f for n in ast.walk(g)
+                   if isinstance(n, ast.Subscript) and isinstance(n.value, ast.Name) and n.value.id == name and isinstance(n.ctx, ast.Load))
+    cx.at_least("R07i", "reads of cached parent-build maps", n_reads, 1)
+    for g in ast.walk(f):
+        if isinstance(g, ast.FunctionDef) and g is not f:
+            b2, _ = _frozen_mutations(g, name)
+            bad += b2
+    for b in bad:
+        cx.ob("R07i", b, False, semantic=True, detail=f"`{norm(b)[:80]}` changes in place a map that may be (or already is) an entry of `{name}`: the parent builds of commits processed earlier "
+              "change with it, later builds made from those commits get wrong predecessor builds, and component builds already shipped are reported again")
+    if not bad:
+        cx.ob("R07i", f, True, f"no in-place change reaches a map that is an entry of `{name}` ({n_reads} reads followed through aliases, branches and the loop)", stmt="cached maps frozen")
